@@ -129,8 +129,7 @@ def vcs(tier):
     for c in (FIXED, FLEX):
         out += [Step(c, v) for v in ("Propose", "Vote", "Execute", "Close")] + [Query(c)]
     # two-call chains on one proposal (thorough): the second call is judged on the state the first really left behind
-    import os
-    if tier == "thorough" and os.environ.get("VERIF_CHAINS"):
+    if tier == "thorough":
         CHV = ("Vote", "Execute", "Close")
         for c in (FIXED, FLEX): out += [Step(c, b, after=a) for a in CHV for b in CHV]
     return out + kernel_fact_vcs(tier)
